@@ -17,6 +17,15 @@ An `ast` pass over src/flexstack/geonet/router.py (nothing is imported or execut
   discharges `snAccessesOutsideLock = 0 ∧ snReturnsUnderLock = true` by `decide`, and `sn_alloc_distinct` is stated
   for the extracted shape (`snReturnsUnderLock`).
 
+* `lsFlushTakesBuffer` (round 5) - `Router.gn_data_indicate_ls_reply`: the list whose requests are re-issued by the
+  flush loop (`for req in <name>: self.gn_data_request_guc(req)`) is bound, inside a `with self._ls_lock:` block, to
+  something read from `self._ls_packet_buffers` AND the same block removes the buffer from that dict (`.pop(...)` as
+  the binding itself or as a later statement, or `del self._ls_packet_buffers[...]`).  The model's reply branch
+  erases the lookup with its buffer (`erasePending`); `second_ls_reply_flushes_nothing` rests on it.
+* `lean/Generated/Locks.lean` (generator of C15 / C16, harness/gen_locks.py) is regenerated for C01 too: Props/C01.lean
+  discharges by `decide` that `LocationTable.refresh_table` is ONE `loc_t_lock` section that reads, filters and
+  re-binds `loc_t` (and that the `new_*_packet` functions create and update an entry in one section).
+
 Anything the translator does not understand raises (reported by vcheck as a broken obligation of C01).
 """
 from __future__ import annotations
@@ -130,11 +139,65 @@ def extract_sn_shape(tree):
     return outside, under, len(body)
 
 
+def _is_self_attr(node, attr):
+    return isinstance(node, ast.Attribute) and isinstance(node.value, ast.Name) and node.value.id == "self" \
+        and node.attr == attr
+
+
+def _mentions(node, attr):
+    return any(_is_self_attr(n, attr) for n in ast.walk(node))
+
+
+def _removes_buffer(node):
+    """`self._ls_packet_buffers.pop(...)` or `del self._ls_packet_buffers[...]` somewhere in `node`"""
+    for n in ast.walk(node):
+        if isinstance(n, ast.Call) and isinstance(n.func, ast.Attribute) and n.func.attr == "pop" \
+                and _is_self_attr(n.func.value, "_ls_packet_buffers"):
+            return True
+        if isinstance(n, ast.Delete) and any(isinstance(t, ast.Subscript) and _is_self_attr(t.value, "_ls_packet_buffers")
+                                             for t in n.targets):
+            return True
+    return False
+
+
+def extract_ls_flush(tree):
+    f = _method(tree, "Router", "gn_data_indicate_ls_reply")
+    loops = [n for n in ast.walk(f) if isinstance(n, ast.For) and _calls(n, "gn_data_request_guc")]
+    if len(loops) != 1 or not isinstance(loops[0].iter, ast.Name):
+        raise Untranslatable("gn_data_indicate_ls_reply: expected ONE loop `for req in <name>` re-issuing the buffered requests")
+    var = loops[0].iter.id
+    locked = {}      # id(node) -> the `with self._ls_lock` statement it is inside of
+    for w in ast.walk(f):
+        if isinstance(w, ast.With) and any(_is_self_attr(i.context_expr, "_ls_lock") for i in w.items):
+            for b in w.body:
+                for x in ast.walk(b):
+                    locked[id(x)] = w
+    binds = []
+    for st in ast.walk(f):
+        if isinstance(st, (ast.Assign, ast.AnnAssign)) and st.value is not None:
+            targets = st.targets if isinstance(st, ast.Assign) else [st.target]
+            if any(isinstance(t, ast.Name) and t.id == var for t in targets) and _mentions(st.value, "_ls_packet_buffers"):
+                binds.append(st)
+    if not binds:
+        raise Untranslatable(f"gn_data_indicate_ls_reply: `{var}` is never bound to something read from _ls_packet_buffers")
+    takes = all(id(b) in locked and _removes_buffer(locked[id(b)]) for b in binds)
+    # nothing puts the flushed requests back
+    for n in ast.walk(f):
+        if isinstance(n, (ast.Assign, ast.AugAssign)):
+            for t in (n.targets if isinstance(n, ast.Assign) else [n.target]):
+                if isinstance(t, ast.Subscript) and _is_self_attr(t.value, "_ls_packet_buffers"):
+                    takes = False
+    return takes
+
+
 @register(props=["C01"])
 def gen_net_facts():
     tree = ast.parse(src(ROUTER))
     guard, text = extract_guc_guard(tree)
     outside, under, nst = extract_sn_shape(tree)
+    takes = extract_ls_flush(tree)
+    import gen_locks                    # lock-section shapes (refresh_table, new_*_packet): obligations of Props/C01.lean
+    gen_locks.gen_locks()
     body = "set_option linter.unusedVariables false\nnamespace Generated.NetFacts\n"
     body += f"/-- Router.gn_data_request_guc: `if {text}:` -> location service -/\n"
     body += f"def gucQueueGuard (present pending neighbour : Bool) : Bool := {guard}\n"
@@ -142,6 +205,8 @@ def gen_net_facts():
     body += f"def snAccessesOutsideLock : Nat := {outside}\n"
     body += f"def snReturnsUnderLock : Bool := {'true' if under else 'false'}\n"
     body += f"def snStatements : Nat := {nst}\n"
+    body += "/-- Router.gn_data_indicate_ls_reply: the flushed requests are taken out of _ls_packet_buffers under _ls_lock -/\n"
+    body += f"def lsFlushTakesBuffer : Bool := {'true' if takes else 'false'}\n"
     body += "end Generated.NetFacts\n"
     write_if_changed("NetFacts.lean", body)
 
